@@ -281,7 +281,7 @@ class AdmReal:
 # ---------------------------------------------------------------------------------------- C09 (redirects)
 
 RED_LOC = {1: "/p%d", 2: "http://a.test/p%d", 3: "http://b.test/p%d", 4: "http://a.test:8080/p%d",
-           5: "https://a.test/p%d", 6: "//b.test/p%d"}
+           5: "https://a.test/p%d", 6: "//b.test/p%d", 7: "https://b.test:8443/p%d", 8: "p%d"}
 
 
 class FakeTCPClient:
@@ -333,7 +333,7 @@ class RedirReal:
         from .vloop import Env
         self.env = Env()
         self.cfg = cfg
-        self.client = SimpleAsyncHTTPClient(force_instance=True, max_clients=2)
+        self.client = SimpleAsyncHTTPClient(force_instance=True, max_clients=1)    # a redirect must release its slot first
         self.tcp = FakeTCPClient(self.env)
         self.client.tcp_client.close()
         self.client.tcp_client = self.tcp
